@@ -653,6 +653,7 @@ func (s *AbsfsNFS) RemoveWithContext(ctx context.Context, dir *NFSNode, name str
 	s.attrCache.Invalidate(dir.path)
 	if s.dirCache != nil {
 		s.dirCache.Invalidate(dir.path)
+		s.dirCache.Invalidate(path) // absfs Remove also removes an empty directory
 	}
 	return nil
 }
@@ -709,8 +710,9 @@ func (s *AbsfsNFS) RenameWithContext(ctx context.Context, oldDir *NFSNode, oldNa
 		return fmt.Errorf("rename: failed to rename %s to %s: %w", oldPath, newPath, err)
 	}
 	// Invalidate caches and negative cache entries
-	s.attrCache.Invalidate(oldPath)
-	s.attrCache.Invalidate(newPath)
+	// A renamed directory takes its descendants with it: drop everything cached below both names
+	s.attrCache.InvalidateTree(oldPath)
+	s.attrCache.InvalidateTree(newPath)
 	s.attrCache.Invalidate(oldDir.path)
 	s.attrCache.Invalidate(newDir.path)
 	// Invalidate negative cache entries in both directories
@@ -719,6 +721,8 @@ func (s *AbsfsNFS) RenameWithContext(ctx context.Context, oldDir *NFSNode, oldNa
 	if s.dirCache != nil {
 		s.dirCache.Invalidate(oldDir.path)
 		s.dirCache.Invalidate(newDir.path)
+		s.dirCache.InvalidateTree(oldPath)
+		s.dirCache.InvalidateTree(newPath)
 	}
 	return nil
 }
